@@ -148,7 +148,7 @@ impl Check for Steps {
         "7 solvers x {3 generic non-linear non-autonomous right-hand sides (dimension 1,2,3), 2 catalogue systems, 2 complex 2-component systems (one with components a quarter turn apart) solved in Complex<f64> and judged as its real twin} x tolerance x maximum step x interval length (one shorter than a start-up, one long), static and dynamic dimension, minimum step up to the maximum step (fixed-step mode), builders configured twice (the later value of every setter must be the one in force); every consecutive pair of every path is one judged transition of the reference stepper (nondeterministic for Adams: hypothesis set over the hidden derivative history); signature = run-length-compressed class sequence (R embedded RK, S RK4 start-up, A Adams, B BDF, a ambiguous, E Euler)".into()
     }
     fn axes(&self, t: Tier) -> Value {
-        json!({"rhs": RHS, "tol": t.pick(vec![1e-3, 1e-6], vec![1e-3, 1e-5, 1e-7, 1e-9]), "dtmax": [0.2, 0.05], "len": t.pick(vec![0.33, 2.7], vec![0.33, 2.7, 9.1]), "t0": t.pick(vec![0.2], vec![0.2, -3.1, 40.0]), "dtmin": "1e-9; and dtmax x {1, 0.5, 0.25} with a sweep of interval lengths across one maximum step"})
+        json!({"rhs": RHS, "tol": t.pick(vec![1e-3, 1e-6], vec![1e-3, 1e-5, 1e-7, 1e-9]), "dtmax": [0.2, 0.05], "len": t.pick(vec![0.33, 2.7], vec![0.33, 2.7, 9.1]), "t0": t.pick(vec![0.2, -3.1], vec![0.2, -3.1, 40.0]), "dtmin": "1e-9; and dtmax x {1, 0.5, 0.25} with a sweep of interval lengths across one maximum step"})
     }
     fn points(&self, t: Tier) -> Vec<StepPt> {
         let mut v = vec![];
@@ -164,7 +164,10 @@ impl Check for Steps {
                                 if dynamic && !(rhs == "generic2" && tol == 1e-3) {
                                     continue;
                                 }
-                                for t0 in t.pick(vec![None], vec![None, Some(-3.1), Some(40.0)]) {
+                                for t0 in t.pick(vec![None, Some(-3.1)], vec![None, Some(-3.1), Some(40.0)]) {
+                                    if t == Tier::Quick && t0.is_some() && !(tol == 1e-3 && dtmax == 0.2) {
+                                        continue;
+                                    }
                                     if t0.is_some() && (dynamic || !rhs.starts_with("generic")) {
                                         continue;
                                     }
